@@ -144,20 +144,29 @@ def strip_coq_strings(src):
     return re.sub(r'"(?:[^"]|"")*"', '""', src)
 
 
-def refresh_makefile():
-    """(Re)generate _CoqProject and Makefile when the set of .v files changed."""
-    files = []
-    for root, _, names in os.walk(THEORIES):
-        for n in names:
-            if n.endswith(".v") and not n.startswith("."):
-                files.append(os.path.relpath(os.path.join(root, n), COQ))
-    files.sort()
-    text = "-Q theories PL\n-arg -w -arg -notation-overridden,-deprecated-hint-without-locality,-deprecated-instance-without-locality,-ambiguous-paths,-deprecated-syntactic-definition\n" + "\n".join(files) + "\n"
-    changed = write_if_changed(os.path.join(COQ, "_CoqProject"), text)
-    if changed or not os.path.exists(os.path.join(COQ, "Makefile")):
-        rc, out = sh(["coq_makefile", "-f", "_CoqProject", "-o", "Makefile"], cwd=COQ)
+WARN_ARGS = "-arg -w -arg -notation-overridden,-deprecated-hint-without-locality,-deprecated-instance-without-locality,-ambiguous-paths,-deprecated-syntactic-definition"
+
+
+def refresh_makefile(files=None, tag=""):
+    """(Re)generate a _CoqProject/Makefile pair.  With files=None: every .v under
+    theories (used by setup.sh).  Otherwise exactly the given files (one cone),
+    so that a half-written file of another property can never break this build."""
+    if files is None:
+        files = []
+        for root, _, names in os.walk(THEORIES):
+            for n in names:
+                if n.endswith(".v") and not n.startswith("."):
+                    files.append(os.path.relpath(os.path.join(root, n), COQ))
+    files = sorted(files)
+    proj = "_CoqProject" + tag
+    mk = "Makefile" + tag
+    text = "-Q theories PL\n" + WARN_ARGS + "\n" + "\n".join(files) + "\n"
+    changed = write_if_changed(os.path.join(COQ, proj), text)
+    if changed or not os.path.exists(os.path.join(COQ, mk)):
+        rc, out = sh(["coq_makefile", "-f", proj, "-o", mk], cwd=COQ)
         if rc:
             raise RuntimeError("coq_makefile failed:\n" + out)
+    return mk
 
 
 def coq_cone(vfile):
@@ -239,9 +248,9 @@ class Ctx:
         self.cov["obligations"] += len(theorems)
         ok = True
         with BuildLock():
-            refresh_makefile()
             try:
                 cone = coq_cone(vfile)
+                mk = refresh_makefile(cone, "." + self.prop)
             except RuntimeError as e:
                 self.broken.append("coqdep:%s" % props_rel)
                 self.notes.append(str(e)[-2000:])
@@ -259,7 +268,7 @@ class Ctx:
                     ok = False
                     self.broken.append("audit:%s declares outside a section: %s" % (f, v))
             deps = [f[:-2] + ".vo" for f in cone if os.path.normpath(f) != os.path.normpath(vfile)]
-            cmd = ["make", "-j16"] + deps
+            cmd = ["make", "-f", mk, "-j16"] + deps
             self.cov["checker_cmd"] = ("cd coq && coq_makefile -f _CoqProject -o Makefile && make -j16 %s && coqc %s %s"
                                        % (" ".join(d for d in deps[-3:]), " ".join(COQFLAGS), vfile))
             if deps:
